@@ -28,7 +28,7 @@ RULE = ("case = (stream, optional collapsing timeframe, entry: standalone EMA(3,
         "with 1-2 members, optionally one on a coarser member timeframe; append schedule starting from 0, 1, 2 or more candles). "
         "After every append every candle list is compared with the HA recurrence over the (resampled) raw rows consumed so far. "
         "non-trivial: >= 2 appends, >= 3 HA candles, and the schedule starts from <= 2 candles or contains a merge. distinct: case digest.")
-ASSUMPTIONS = ["gap filling is not combined with HA (no property quantifier names the combination; 'previous close' is ambiguous there)",
+ASSUMPTIONS = ["with gap filling, 'the collapsed raw candles' are the collapsed AND filled raw candles (fill candles flat at the previous raw close), as a batch run produces them",
                "relative tolerance 1e-9 on OHLC (the recurrence is evaluated in the same order by both sides)"]
 _hooked = False
 _conv = {"calls": 0, "double": 0}
@@ -85,7 +85,13 @@ def gen_case(rng, tier, idx):
         rows = streams.make_rows(rng, n, "walk", step, "regular", tf_s)
         sch["preload"] = rng.choice([0, 1, n // 2, n - 5])
         sch["chunks"] = schedules.rand_chunks(rng, n - sch["preload"], style=rng.choice(["singles", "random", "two"]))
-    return {"rows": rows, "tf": tf, "entry": entry, "member_tf": member_tf, "schedule": sch, "lifespan_s": lifespan}
+    # gap filling under HA: fill candles are flat at the previous RAW close and are then converted like any other candle
+    fill = lifespan is None and (tf is not None or member_tf is not None) and rng.random() < 0.3
+    if entry == "hexital_member_tf" and tf is not None:
+        fill = False  # Hexital timeframe + fill + member timeframe + candles at construction is the recorded C08 finding ('filled')
+    if fill and mode != "gaps" and tf is not None and rng.random() < 0.7:
+        rows = streams.make_rows(rng, n, rng.choice(["walk", "spiky"]), step, "gaps", tf_s, max_gap_buckets=12)
+    return {"rows": rows, "tf": tf, "entry": entry, "member_tf": member_tf, "schedule": sch, "lifespan_s": lifespan, "fill": fill}
 
 
 def ohlc_close(a, b):
@@ -100,6 +106,10 @@ def run_case(case):
     viol = []
     c0 = dict(_conv)
     kw = {"timeframe": tf} if tf else {}
+    fill = bool(case.get("fill"))
+    if fill:
+        kw["timeframe_fill"] = True
+        stats["fill_cases"] = 1
     life = case.get("lifespan_s")
     if life:
         from datetime import timedelta
@@ -116,7 +126,7 @@ def run_case(case):
 
     def check(obj, consumed, where):
         for lname, ltf, cs, rname in lists(obj):
-            base = resample(drows[:consumed], ltf) if ltf else drows[:consumed]
+            base = resample(drows[:consumed], ltf, fill) if ltf else drows[:consumed]
             want = heikin_ashi(base)
             stats["snapshots_compared"] = stats.get("snapshots_compared", 0) + 1
             got = [(vars(c).get("timestamp"), c.open, c.high, c.low, c.close, c.volume) for c in cs]
